@@ -121,6 +121,24 @@ json_endpoints! {
     fn body_double_set(body: BTreeSet<DoubleKey>) -> BTreeSet<DoubleKey>;
     fn body_list_alias(body: IntListAlias) -> IntListAlias;
     fn small_body(body: String) -> String;
+    fn kb_body(body: String) -> String;
+    fn limit_plain(body: String) -> String;
+    fn limit_k(body: String) -> String;
+    fn limit_ki(body: String) -> String;
+    fn limit_mb(body: String) -> String;
+    fn limit_m(body: String) -> String;
+    fn limit_mib(body: String) -> String;
+    fn limit_mi(body: String) -> String;
+    fn limit_g(body: String) -> String;
+    fn limit_gb(body: String) -> String;
+    fn limit_gib(body: String) -> String;
+    fn limit_gi(body: String) -> String;
+    fn limit_t(body: String) -> String;
+    fn limit_tb(body: String) -> String;
+    fn limit_tib(body: String) -> String;
+    fn limit_ti(body: String) -> String;
+    fn limit_b(body: String) -> String;
+    fn kib_body(body: String) -> String;
     fn safe_mix(auth_: BearerToken, safe_path: String, unsafe_path: String, safe_query: String, unsafe_query: String, safe_header: String, unsafe_header: String, dnl_query: Option<String>, enum_query: Option<Color>, unsafe_enum_query: Option<Color>) -> ();
     fn safe_body(id: i32, body: Payload) -> i32;
     fn enum_map_body(id: i32, body: BTreeMap<Color, StrAlias>) -> ();
